@@ -299,3 +299,48 @@ PROPS["C14"] = {
     "trusted_base": [],
     "assumptions": [],
 }
+
+PROPS["C18"] = {
+    "lean_modules": ["StyluaModel.Props.C18"],
+    "theorem_prefix": "C18_",
+    "required_theorems": ["C18_json_partial", "C18_json", "C18_none_iff", "C18_ranges"],
+    "py": [cli.c18],
+    "needs_cli": True,
+    "level": "proof",
+    "level_text": "Proof for the JSON producer (StyLua's own code): for every valid edit script over files of any length the mismatches, applied as line-range replacements, yield exactly the new text - unconditionally for a producer that records every inserted line, and for the code as it is (an Insert records its first line only) whenever pure insertions are one line long; no mismatch iff nothing differs; reported ranges are the script's. Partial for the unified format, which is produced inside the `similar` crate: it is only applied (by an independent applier) and compared.",
+    "level_note": "Trusted: Lean kernel; Model/Diff.lean tied by the `diffjson` correspondence (edit scripts computed with the same `similar` version through the harness); Python appliers for JSON (same algorithm as Diff.apply) and unified diffs; a multi-line pure insertion has not been observed between a file and its formatted form (count reported in the evidence).",
+    "technique": "Lean 4 induction over edit scripts + correspondence with the real JSON output + diff appliers as oracle",
+    "rule": "40 (thorough 120) seeded corpus files + 10 special pairs (no final newline, CRLF, first / last line changes, 14 separated hunks, multi-line expansion and deletion, blank lines, already formatted, empty) x 4 output formats. ring 2 (`diffjson`): line ranges and line contents of every reported mismatch vs Model/Diff.lean. ring 3: applying the JSON mismatches / the unified diff to the original gives the library's output byte for byte; a diff is printed iff the file differs (all formats). distinct_nontrivial = distinct scripts.",
+    "trusted_base": [],
+    "assumptions": [],
+}
+
+PROPS["C15"] = {
+    "lean_modules": ["StyluaModel.Props.C15"],
+    "theorem_prefix": "C15_",
+    "required_theorems": ["C15_memo", "C15_walk", "C15_forced", "C15_precedence", "C15_overrides_last"],
+    "py": [cli.c15],
+    "needs_cli": True,
+    "level": "proof",
+    "level_text": "Proof on the resolution model: the directory cache is transparent (for any cache that is coherent - in particular the empty one - the cached search returns what the uncached lexical walk returns and stays coherent, so any sequence of files gets per-file answers); for a target written without `.`/`..` the walk is the documented nearest-config search stopping at the working directory; --config-path wins; toml > .editorconfig (unless disabled) > defaults; every command-line format option overrides whatever was found. The lexical treatment of `..` (a known finding) is part of the model and exhibited by a computed witness.",
+    "level_note": "Trusted: Lean kernel; Model/Config.lean tied by the `config` correspondence on generated trees (configs of either name at six levels incl. above and beside the cwd, user-level config, --config-path, .editorconfig files, 9 target spellings incl. stdin); toml / ec4rs parsing are parameters (C20 covers decoding); each config file sets a distinct indent width so the applied configuration is read off the output.",
+    "technique": "Lean 4 cache-coherence invariant + walk = spec proof + CLI correspondence on generated directory trees",
+    "rule": "120 (thorough 400) seeded trees x one target of 9 kinds (relative, ./relative, absolute, ../sibling, absolute sibling, directory, stdin with / without --stdin-filepath) x {--search-parent-directories, --no-editorconfig, --config-path, XDG_CONFIG_HOME, --quote-style override}; plus one invocation over the whole working directory (exercises the cache) and .editorconfig sections chosen by file name over several files of one directory in 6 (24) orders. ring 2 (`config`): applied configuration vs Model/Config.lean. ring 3: the documented rule computed independently for targets inside the cwd; overrides applied; both spellings of an outside target agree.",
+    "trusted_base": [],
+    "assumptions": ["no configuration files exist above the scratch tree (/verif/.cache/tmp)"],
+}
+
+PROPS["C17"] = {
+    "lean_modules": ["StyluaModel.Props.C17"],
+    "theorem_prefix": "C17_",
+    "required_theorems": ["C17_formatted", "C17_parse_error", "C17_passthrough", "C17_no_writes"],
+    "py": [cli.c17],
+    "needs_cli": True,
+    "level": "proof",
+    "level_text": "Proof of the decision logic (the formatter is a parameter): parsing input gives exactly the formatter's text on stdout with status 0, a parse error gives nothing and status 2, an ignored --stdin-filepath under --respect-ignores passes the input through, nothing is written. Partial: buffering, truncation of stdout under process::exit and pipes are runtime behaviour the model cannot exhibit; stdout bytes are compared with the library's output (harness linked against /repo) on 14 inputs incl. a multi-megabyte one.",
+    "level_note": "Trusted: Lean kernel; Model/Stdin.lean tied by the `stdin` correspondence; library output obtained through the harness (`hx fmt`) under the configuration the flags denote; file-system snapshot before/after.",
+    "technique": "Lean 4 decision logic + byte comparison of stdout with the library output + file-system snapshots",
+    "rule": "14 inputs (valid, formatted, invalid, empty, blank lines, spaces only, CRLF blank, tab only, CRLF, no trailing newline, comment only, shebang, non-ASCII, 2 MB (thorough 7 MB)) x {check} x {respect-ignores} x {no / plain / ignored --stdin-filepath} x 5 format-option sets (seeded subsample). ring 2 (`stdin`): kind of stdout (input / formatted / diff / nothing) and exit status vs Model/Stdin.lean. ring 3: stdout equals the library's output byte for byte; nothing on a parse error; pass-through; no file touched.",
+    "trusted_base": [],
+    "assumptions": [],
+}
